@@ -3,14 +3,12 @@ module verifharness
 go 1.23
 
 require (
+	github.com/aymerick/douceur v0.2.0
 	github.com/microcosm-cc/bluemonday v0.0.0
 	golang.org/x/net v0.26.0
 	pgregory.net/rapid v1.3.0
 )
 
-require (
-	github.com/aymerick/douceur v0.2.0 // indirect
-	github.com/gorilla/css v1.0.1 // indirect
-)
+require github.com/gorilla/css v1.0.1 // indirect
 
 replace github.com/microcosm-cc/bluemonday => /repo
